@@ -36,6 +36,7 @@ N_VAL = 4
 N_INPUTS = 6
 MAX_SOLUTIONS = 24
 CASE_CPU_SECONDS = 120     # CPU time (ITIMER_PROF), not wall-clock
+Z3_TIMEOUT_MS = 3000       # per satisfiability query; 'unknown' is counted and skipped
 
 
 def shards(tier, seed, scale):
@@ -270,13 +271,22 @@ def check_values(rec, mode, kind, sol, res, case, h_rev, wit):
 def check_constraints(rec, kind, sol, case, h_rev, wit):
     from vf import irinterp, refsem
     ctx = case.ctx
+    import z3
     try:
-        sat = sol.is_satisfiable
+        # is_satisfiable is 'self._solver.check() == z3.sat'; the same call with a solver time limit, so
+        # that a hard bit-vector query (64-bit products) ends as 'unknown' (counted, never a verdict)
+        sol._solver.set("timeout", Z3_TIMEOUT_MS)
+        answer = sol._solver.check()
         assertions = list(sol._solver.assertions())
     except Exception as exc:
         rec.fail("implicit: is_satisfiable raises %s" % type(exc).__name__, repr(exc), wit)
         return
-    rec.count("implicit_sat" if sat else "implicit_unsat")
+    if answer == z3.unknown:
+        rec.count("implicit_sat_unknown")
+        sat = None
+    else:
+        sat = (answer == z3.sat)
+        rec.count("implicit_sat" if sat else "implicit_unsat")
     for k in range(N_INPUTS):
         env0 = case.inputs[k]
         base = dict(env0.ids)
@@ -297,7 +307,7 @@ def check_constraints(rec, kind, sol, case, h_rev, wit):
             continue
         rec.count(("inputs_follow:" if follows else "inputs_leave:") + kind)
         w = None
-        if holds != follows or (follows and not sat):
+        if holds != follows or (follows and sat is False):
             w = dict(wit, regs={str(a): hex(b) for a, b in base.items()}, mem_seed=env0.seed,
                      history=[str(l) for l in h_rev], concrete_path=[str(l) for l in r.path],
                      constraints=[common.short(a, 400) for a in assertions])
@@ -317,7 +327,7 @@ def check_constraints(rec, kind, sol, case, h_rev, wit):
             rec.fail("implicit: execution follows the history but the path constraints are false",
                      "history %s" % [str(l) for l in h_rev], w)
             return
-        if follows and not sat:
+        if follows and sat is False:
             rec.fail("implicit: is_satisfiable is False for a history a concrete input follows",
                      "history %s" % [str(l) for l in h_rev], w)
             return
